@@ -402,6 +402,59 @@ func (c *c03State) randomCut(s *c01Sched) c03Cut {
 	return cu
 }
 
+// drain completes the dance until nothing is in flight, the way lnd's link
+// does it: one message at a time, a commitment_signed is answered with the
+// revocation before anything else is handled.
+func (c *c03State) drain(s *c01Sched, resolve bool) {
+	for i := 0; i < 400 && !s.dead; i++ {
+		progress := false
+		for d := 0; d < 2 && !s.dead; d++ {
+			if len(s.p.Q[d]) == 0 {
+				continue
+			}
+			kind := s.p.Q[d][0].kind
+			res := s.runDeliver(d)
+			progress = true
+			if kind == "commitsig" && res == "ok" {
+				s.runAct(1-d, c01Act{Kind: "revoke"})
+			}
+		}
+		if s.dead {
+			return
+		}
+		if progress {
+			continue
+		}
+		for x := 0; x < 2; x++ {
+			ch := s.p.Ch[x]
+			if ch.commitChains.Local.hasUnackedCommitment() {
+				s.runAct(x, c01Act{Kind: "revoke"})
+				progress = true
+			}
+		}
+		for x := 0; x < 2; x++ {
+			ch := s.p.Ch[x]
+			if ch.OweCommitment() && !ch.commitChains.Remote.hasUnackedCommitment() {
+				if s.runAct(x, c01Act{Kind: "sign"}) == "ok" {
+					progress = true
+				}
+			}
+		}
+		if !progress && resolve {
+			for x := 0; x < 2; x++ {
+				for _, idx := range s.settleable(x) {
+					s.runAct(x, c01Act{Kind: c01Pick(s.r, "settle", "fail"), Idx: idx})
+					progress = true
+				}
+			}
+		}
+		if !progress {
+			return
+		}
+	}
+	c.noteSigs(s.p)
+}
+
 // ---------------------------------------------------------------------------
 // cases
 // ---------------------------------------------------------------------------
@@ -500,20 +553,18 @@ func c03RunCase(t *testing.T, pl c03Plan) *c03Result {
 				break
 			}
 			if r.Intn(30) == 0 {
-				s.drain(false)
-				c.noteSigs(pair)
+				c.drain(s, false)
 			}
 		}
 	}
 
 	// final: drain, one more reconnection of the quiescent channel, full dance
-	s.drain(r.Intn(2) == 0)
-	c.noteSigs(pair)
+	c.drain(s, r.Intn(2) == 0)
 	if !s.dead && r.Intn(2) == 0 {
 		c.cut(s, c03Cut{kA: 0, kB: 0, dlp: [2]bool{true, true}, half: -1})
 	}
-	s.drain(true)
-	s.drain(false)
+	c.drain(s, true)
+	c.drain(s, false)
 	w.WriteString("END\n")
 	w.Flush()
 	res.stats["cases"]++
@@ -540,9 +591,9 @@ func TestVerifC03(t *testing.T) {
 	w := bufio.NewWriterSize(f, 1<<20)
 	defer w.Flush()
 
-	randPerKind, probesPerKind, maxSteps, maxAdds, probeSteps := 10, 1, 40, 6, 16
+	randPerKind, probesPerKind, maxSteps, maxAdds, probeSteps := 14, 2, 40, 6, 16
 	if tier == "thorough" {
-		randPerKind, probesPerKind, maxSteps, maxAdds, probeSteps = 60, 5, 90, 10, 30
+		randPerKind, probesPerKind, maxSteps, maxAdds, probeSteps = 150, 12, 90, 10, 30
 	}
 	if v, err := strconv.Atoi(os.Getenv("VERIF_C03_RAND")); err == nil && v >= 0 {
 		randPerKind = v
